@@ -15,7 +15,7 @@ PROPS = {
         "extra": [("mix", 3, 12)], "profile": "core", "n_quick": 5, "n_thorough": 40, "nops": 16, "nlists": 3, "cfgs": SIX,
         "corpus": ["fwd_sub_table", "fwd_sub_table_internal", "fwd_sub_irows", "fwd_sub_sirows", "fwd_subsub_table",
                    "fwd_subsub_irows", "fwd_subsub_sirows", "fwd_nowhere", "ortho_codes", "defer_codes"],
-        "monitor": M.mon_C01,
+        "monitor": M.both(M.mon_C01, M.mon_spec),
         "relevant": M.relevant_by(M.proj({"G0", "G1", "A"}, keep_res=True)),
         "rule": "seeded random machines (1-3 regions, depth <= 2, conflicting rows, state and sm internal tables) x 6 "
                 "configurations x random guard valuations; distinct = (configuration, machine, active ids, event, guard pattern)",
@@ -25,7 +25,7 @@ PROPS = {
         "extra": [("mix", 3, 12)], "profile": "core", "n_quick": 5, "n_thorough": 40, "nops": 16, "nlists": 3, "cfgs": SIX,
         "corpus": ["rowkind_row", "rowkind_arow", "rowkind_grow", "rowkind_norow",
                    "rowkind_ep_row", "rowkind_ep_arow", "rowkind_ep_grow", "rowkind_ep_norow"],
-        "monitor": None,
+        "monitor": M.mon_spec,
         "relevant": M.relevant_by(M.proj({"X", "A", "N", "MN", "MX"}, keep_snap=True)),
         "rule": "same machines as C01; every taken transition's exit/action/entry cascade compared item by item",
         "assumptions": CORE_ASSUME,
@@ -33,7 +33,7 @@ PROPS = {
     "C06": {
         "extra": [("mix", 3, 12)], "profile": "all", "n_quick": 5, "n_thorough": 40, "nops": 16, "nlists": 3, "cfgs": SIX,
         "corpus": ["ortho_codes", "ortho_terminate", "ortho_interrupt", "exitpt_codes", "defer_codes"],
-        "monitor": M.mon_C06,
+        "monitor": M.both(M.mon_C06, M.mon_spec),
         "relevant": M.relevant_by(M.proj(M.ALL, keep_res=True)),
         "rule": "same machines as C01; result code and no_transition calls of every process_event",
         "assumptions": CORE_ASSUME,
@@ -42,7 +42,7 @@ PROPS = {
         "extra": [("mix", 3, 12)], "profile": "nest", "n_quick": 4, "n_thorough": 30, "nops": 16, "nlists": 3, "cfgs": SIX,
         "corpus": ["fwd_sub_table", "fwd_sub_table_internal", "fwd_sub_irows", "fwd_sub_sirows", "fwd_subsub_table",
                    "fwd_subsub_irows", "fwd_subsub_sirows", "fwd_nowhere", "defer_codes"],
-        "monitor": M.mon_C01,
+        "monitor": M.both(M.mon_C01, M.mon_spec),
         "relevant": M.relevant_by(M.proj(M.ALL, keep_res=True, keep_snap=True)),
         "rule": "nested machines (depth 2-3, 1-2 regions per level); full trace compared",
         "assumptions": CORE_ASSUME,
@@ -80,7 +80,7 @@ PROPS = {
     "C08": {
         "extra": [("mix", 3, 12)], "profile": "hist", "n_quick": 5, "n_thorough": 40, "nops": 18, "nlists": 3, "cfgs": SIX,
         "corpus": ["fork_partial_none", "fork_partial_shallow_other", "fork_partial_shallow_fork", "fork_partial_always"],
-        "monitor": None,
+        "monitor": M.mon_spec,
         "relevant": M.relevant_by(M.proj({"N", "MN", "X", "MX"}, keep_snap=True)),
         "rule": "nested machines, each submachine with a random history policy (none / always / shallow on 1-2 event "
                 "types); histories of enter / move / exit cycles by random events",
@@ -126,7 +126,7 @@ PROPS = {
     },
     "C13": {
         "profile": "common", "n_quick": 6, "n_thorough": 50, "nops": 18, "nlists": 3, "cfgs": SIX + ["back+circ", "back11+circ"],
-        "monitor": None, "cross_cfg": M.proj_C13,
+        "monitor": M.mon_spec, "cross_cfg": M.proj_C13,
         "relevant": M.relevant_by(M.proj(M.ALL, keep_res=True, keep_snap=True, keep_ev=True)),
         "rule": "machines inside the common feature subset (no machine-level internal tables, no Kleene / base-class triggers, "
                 "deferral and blocking states only in the root, completion rows from simple states in one region with guards "
@@ -202,7 +202,7 @@ PROPS = {
         "profile": "nest", "n_quick": 3, "n_thorough": 16, "nops": 14, "nlists": 3,
         "cfgs": POL("back") + POL("back11") + POL("mp11") + ["back_fct:p1", "back_fct:p2", "mp11_fct:p3", "mp11_fct:p1", "mp11_fpa:p2"],
         "corpus": ["exitpt_outside", "rowkind_ep_row", "rowkind_ep_arow", "rowkind_ep_grow", "rowkind_ep_norow"],
-        "monitor": M.mon_C19,
+        "monitor": M.both(M.mon_C19, M.mon_spec),
         "relevant": M.relevant_by(M.proj(M.ALL, keep_obs=True)),
         "rule": "seeded random nested machines (profile nest) x 4 policies x engines; every taken external transition "
                 "observed from guard/exit/action/entry; distinct = (policy, phase, machine path, row) combinations whose "
